@@ -82,6 +82,12 @@ def decompositions(draw, gspec, max_nodes=512, allow_radial_cyl=False):
         c = draw(st.one_of(st.sampled_from([1, 2, 2, n, n, max(1, n - 1), max(1, (n + 1) // 2), 3]),
                            st.integers(1, n), st.integers(min(2, n), n)))
         chunks.append(min(c, n))
+    splittable = [a for a, n in enumerate(gspec["shape"])
+                  if n >= 2 and not (gspec["cls"] == "cyl" and a == 0 and not allow_radial_cyl)]
+    if all(c == 1 for c in chunks) and splittable and draw(st.integers(0, 4)) > 0:
+        # the undivided mesh is a legitimate but uninformative case: keep it to ~1/5 of its natural share
+        a = splittable[draw(st.integers(0, len(splittable) - 1))]
+        chunks[a] = draw(st.integers(2, gspec["shape"][a]))
     while int(np.prod(chunks)) > max_nodes:
         i = int(np.argmax(chunks))
         chunks[i] = max(1, chunks[i] // 2)
